@@ -18,3 +18,7 @@ pub mod c10;
 pub mod c09;
 #[cfg(feature = "c11")]
 pub mod c11;
+#[cfg(any(feature = "c02", feature = "c07"))]
+pub mod c02;
+#[cfg(feature = "c07")]
+pub mod c07;
